@@ -122,8 +122,15 @@ def main():
     brc, bout = build()
     vfile = mod.COQ_PROPS
     files = closure(vfile)
+    for extra_v in getattr(mod, 'COQ_PROPS_EXTRA', []):
+        files = sorted(set(files) | set(closure(extra_v)))
     vo = os.path.join(COQ, vfile[:-2] + '.vo')
-    stale = (not os.path.exists(vo)) or any(
+    extra_stale = False
+    for extra_v in getattr(mod, 'COQ_PROPS_EXTRA', []):
+        evo = os.path.join(COQ, extra_v[:-2] + '.vo')
+        if not os.path.exists(evo) or os.path.getmtime(os.path.join(COQ, extra_v)) > os.path.getmtime(evo):
+            extra_stale = True
+    stale = extra_stale or (not os.path.exists(vo)) or any(
         os.path.getmtime(os.path.join(COQ, f)) > os.path.getmtime(vo) for f in files if os.path.exists(os.path.join(COQ, f)))
     failed_files = re.findall(r'File "\./([^"]+)", line (\d+)[^\n]*\n((?:.*\n){0,6})', bout)
     if stale:
